@@ -638,7 +638,7 @@ def _compose_qoperations_MProcess_State(
 
     if elem1.mode_sampling:
         # return State
-        sample = multinomial.rvs(1, ps)
+        sample = multinomial.rvs(1, ps, random_state=elem1.random_state)
         sample_index = np.argmax(sample)
         return states[sample_index]
     else:
@@ -680,7 +680,7 @@ def _compose_qoperations_MProcess_StateEnsemble(
         new_states = []
         for x_index, state in enumerate(elem2.states):
             local_ps = ps[x_index * num_hss : (x_index + 1) * num_hss]
-            sample = multinomial.rvs(1, local_ps)
+            sample = multinomial.rvs(1, local_ps, random_state=elem1.random_state)
             sample_index = np.argmax(sample)
             new_states.append(states[x_index * num_hss + sample_index])
         mult_dist = MultinomialDistribution(
